@@ -660,6 +660,15 @@ void op_bt_log(World& W, int wi, bool in_burst, int ypoint)
   size_t before = W.stmts.size();
   bool named_bt = W.c->pick(4) == 3; // the stored event owns its named args: they must come back with the replay
   if (named_bt) W.r->label("named_backtrace_statement");
+  if (g_bt_throws && !L.sinks.empty() && W.c->pick(5) == 4)
+  {
+    // C10 x C18: one sink of the logger throws when THIS backtrace statement is written (i.e. during a replay, if it is
+    // still in the ring then). Only that statement may be missing, on that sink and the logger's sinks after it.
+    int sk = L.sinks[W.c->pick(static_cast<uint32_t>(L.sinks.size()))];
+    W.sinks[sk].raw->plan.throw_ids.insert(std::to_string(wi + 1) + ":" + std::to_string(W.workers[wi].next_seq));
+    W.r->label("sink_throws_during_backtrace_replay_planned");
+    W.log_op("ThrowOn(s" + std::to_string(sk) + "," + std::to_string(wi + 1) + ":" + std::to_string(W.workers[wi].next_seq) + ")");
+  }
   op_log(W, wi, in_burst, ypoint, li, static_cast<int>(named_bt ? SKind::NamedBacktrace : SKind::Backtrace), true);
   if (W.stmts.size() > before)
   {
